@@ -3,3 +3,4 @@ CHECK_DEADLOCK FALSE
 CONSTANTS
   NCases = 10
   Stride = 7
+  NGen = 3
